@@ -70,6 +70,8 @@ def parseEv (j : Json) : R Ev := do
     -- guard exactly like ppid() (`Call.ppid`); the harness ignores the outcome of these ops, not what follows them
     let what ← strF j "what"
     if what == "children" then return .c (.ppid (← natF j "i"))
+    -- a public call that asks `create_time()` on the way (as_dict(attrs=[… 'create_time' …])): memoises `_create_time`
+    else if what == "as_dict_ct" then return .c (.createTime (← natF j "i"))
     else return .c (.oneshot (← natF j "i") true)
   else .error s!"unknown op {op}"
 
@@ -148,7 +150,8 @@ def specOf (s : St) : Ev → Json
         | some o =>
           let base := [("listed", Json.bool (Spec.listedB s.kern o)), ("pid", jNat o.pid), ("ghost", jNat o.ghost),
                        ("effect_call", Json.bool (Spec.isEffectCall call)),
-                       ("refusal", jOpt (fun x => Json.str (errnoName x)) (s.kern.refusal o.pid))]
+                       ("refusal", jOpt (fun x => Json.str (errnoName x)) (s.kern.refusal o.pid)),
+                       ("readable", Json.bool (Spec.statOpensB s.kern o.pid))]
           match Spec.wanted call with
           | none => jObj base
           | some (kind, arg) => jObj (base ++ [("want_kind", Json.str (kindName kind)), ("want_arg", jArg arg)])
